@@ -244,6 +244,35 @@ def up(ctx):
                 ob.refute("up-mask-apply:%s" % tag, "converted byte enables are not ANDed with the widened lane mask", app[0].loc if app else None)
 
 
+def up_framing(ctx):
+    ob = ctx.ob("C07.6", "up-converter write path: the user's stream framing bits (wdata.last / first) never reach the sink of the width StrideConverter - LiteX's "
+                         "up-converter closes the wide word on sink.last, while the chunk bookkeeping around it (chunk position, byte-enable mask) counts lanes", 1)
+    v = up_view(ctx, 2, False)
+    convs = [o for o in v.d.objs if o.cls == "StrideConverter"]
+    names = [str(o) for o in convs]
+    wr = [n_ for n_ in names if "wdata" in n_] or names[:1]
+    if not ob.need(len(wr) >= 1, "write-side StrideConverter of the up-converter not found"):
+        return
+    sink = wr[0] + ".sink"
+    n = 0
+    for l in v.leaves:
+        if l.kind == "connect" and key(l.target) == sink:
+            n += 1
+            om, kp = (l.stmt.omit or set()), l.stmt.keep
+            leaks = [f_ for f_ in ("last", "first") if f_ not in om and (kp is None or f_ in kp)]
+            ob.instance("connect into %s" % sink, {"statement": str(l.stmt)[:120], "framing bits forwarded": leaks})
+            if "last" in leaks:
+                ob.refute("up-last-leak", "`%s` forwards the stream's `last` into the width converter: a master that marks the end of a burst in the middle of a wide word makes "
+                          "the converter emit that word early, with the previous word's byte-enable mask and the following lanes shifted" % str(l.stmt)[:100], l.loc)
+        if l.kind == "assign" and key(l.target) == sink + ".last" and not is0(l.value):
+            n += 1
+            ob.refute("up-last-leak", "`%s` drives the width converter's sink.last" % str(l)[:100], l.loc)
+    drv = [l for l in v.leaves if l.kind == "assign" and key(l.target).startswith(sink + ".")]
+    ob.instance("drivers of %s" % sink, sorted({key(l.target) for l in drv}))
+    if not drv and n == 0:
+        ob.unknown("no driver of %s found" % sink)
+
+
 def addr_width(ctx):
     ob = ctx.ob("C07.3", "address-width adjustment: a port converted to another data width keeps the same byte capacity "
                          "(aw_user + log2(dw_user) = aw_native + log2(dw_native)) in all three copies of the computation (crossbar.get_port, "
@@ -330,6 +359,7 @@ def lane_order(ctx):
 def run(ctx):
     down(ctx)
     up(ctx)
+    up_framing(ctx)
     addr_width(ctx)
     lane_order(ctx)
     ctx.assume("stream.StrideConverter / stream.SyncFIFO contracts (LiteX); data values, FIFO occupancy interleavings and the read_lock race are not decided")
